@@ -65,13 +65,18 @@ TRUSTED = ['translator specs path.py / compact_slot.py / sqlbatch.py (ast -> Gal
            'payloads are opaque (channel count + pixel values of RGB / RGBA tiles); single-colour payloads are canonical '
            'per colour tuple (same tile size in one cache)',
            'compact caches at byte level: C19 model Bundle.v (files as byte sequences), tied here by the compact_bytes '
-           'correspondence stream (payload = PNG bytes) and proved to answer like the map']
+           'correspondence stream (payload = PNG bytes) and proved to answer like the map',
+           'mbtiles with ttl: SqlTtl.v (rows carry last_modified in whole seconds, datetime() text comparison = '
+           'comparison of seconds, localtime = UTC + one offset per process); which statements carry the localtime '
+           'modifier is read from the source text (ttl_sites), histories in five time zones run on the model with all '
+           'clock readings equal (ttl_histories); the per-level sqlite cache with ttl is probed (oracle) and compared '
+           'with the model without ttl only']
 ASSUMPTIONS = ['tile coordinates and levels are non-negative',
                'all addresses of one cache use the same dimension keys (lower case, distinct); values are arbitrary text',
                'quadkey layout: x, y < 2^z and no dimensions; arcgis layout: no dimensions (finding F4 otherwise)',
                'sqlite / compact back-ends: no dimensions (the configuration loader refuses dimension layers there)',
-               'mbtiles / sqlite with a ttl: the ttl (>= 1 h in the probes) is longer than the history takes, so the '
-               'ttl condition of the SELECTs holds for every row; the models have no clock (same model as without ttl)',
+               'mbtiles / sqlite with a ttl: all clock readings of the history lie in one window shorter than the ttl '
+               '(>= 1 h in the probes); after that rows disappear by design (theorem hypothesis in_window)',
                'compact back-ends: x, y < 2^31 (the v1 bundle header stores the bundle origin in 32 bit fields and '
                'struct.pack refuses larger values; the key-level model has no such limit)',
                'every operation is given fresh Tile objects; no concurrent writers (C06/C07/C08 cover those)',
@@ -920,7 +925,49 @@ def deep_level_probes():
     return out
 
 
+# POSIX TZ strings (positive = west of UTC) and the offset local time - UTC in seconds
 TTL_ZONES = ['UTC0', 'XXX5', 'XXX-5', 'XXX11:30', 'XXX-13']
+TZ_OFFSET = {'UTC0': 0, 'XXX5': -18000, 'XXX-5': 18000, 'XXX11:30': -41400, 'XXX-13': 46800}
+
+
+def ttl_sites(ctx):
+    """which of the three SQL statements of MBTilesCache (INSERT in _store_bulk, SELECT in load_tile, SELECT in
+    load_tiles) carry the 'localtime' modifier in their datetime() call: read from the source text (ast; fail closed)
+    -> Gallina term of type `sites`, or None"""
+    import ast
+    try:
+        import mapproxy.cache.mbtiles as mod
+        tree = ast.parse(open(mod.__file__.replace('.pyc', '.py')).read())
+        cls = [n for n in tree.body if isinstance(n, ast.ClassDef) and n.name == 'MBTilesCache']
+        if len(cls) != 1:
+            raise ValueError('class MBTilesCache not found once')
+        flags = []
+        for fname in ('_store_bulk', 'load_tile', 'load_tiles'):
+            fns = [n for n in cls[0].body if isinstance(n, ast.FunctionDef) and n.name == fname]
+            if len(fns) != 1:
+                raise ValueError('method %s not found once' % fname)
+            texts = [n.value for n in ast.walk(fns[0]) if isinstance(n, ast.Constant) and isinstance(n.value, str)
+                     and 'datetime(' in n.value]
+            n_calls = sum(t.count('datetime(') for t in texts)
+            if n_calls != 1:
+                raise ValueError('%s: %d datetime() calls in string constants, one expected' % (fname, n_calls))
+            t = texts[0]
+            call = t[t.index('datetime('):]
+            call = call[:call.index(')') + 1]
+            args = [a.strip() for a in call[len('datetime('):-1].split(',')]
+            want = {'_store_bulk': (['?', "'unixepoch'"], ['?', "'unixepoch'", "'localtime'"]),
+                    'load_tile': (["'now'", "'%d seconds'"], ["'now'", "'localtime'", "'%d seconds'"]),
+                    'load_tiles': (["'now'", "'%d seconds'"], ["'now'", "'localtime'", "'%d seconds'"])}[fname]
+            if args == want[1]:
+                flags.append(True)
+            elif args == want[0]:
+                flags.append(False)
+            else:
+                raise ValueError('%s: datetime() arguments %r not understood' % (fname, args))
+        return '(mkSites %s %s %s)' % tuple(blit(f) for f in flags), flags
+    except Exception as ex:  # noqa
+        ctx.problem('harness', 'ttl statements of mbtiles.py not understood: %r' % (ex,), {})
+        return None, None
 
 
 def ttl_probes():
@@ -1502,6 +1549,7 @@ def run(ctx):
 
     terms, descr = [], []
     bterms, bdescr = [], []
+    tterms, tdescr = [], []
     cterms, cdescr = {'compact1': [], 'compact2': []}, {'compact1': [], 'compact2': []}
     cmax = ctx.n(14, 150)
     png_of = dict((tuple(px), pay.png[i]) for i, px in enumerate(pay.pixels))
@@ -1556,6 +1604,12 @@ def run(ctx):
                     mops.append((None, r))
             else:
                 mops.append((o, r))
+        if cfg.get('ttl') and cfg['kind'] == 'mbtiles':
+            # the model with time stamps (SqlTtl.v): offset of the zone, every operation at clock reading 0
+            tterms.append('(%s, %s,\n [%s],\n [%s])' % (
+                zlit(TZ_OFFSET[cfg['tz']]), zlit(cfg['ttl']), ';\n  '.join(op_lit(pay, o) for (o, _) in mops if o is not None),
+                '; '.join(out_lit(r) for (o, r) in mops)))
+            tdescr.append({'backend': cfg, 'origin': origin, 'history': ops, 'implementation_outputs': outs})
         (bterms if big else terms).append('(%s,\n [%s],\n [%s])' % (
             cfg_lit(cfg), ';\n  '.join(op_lit(pay, o) for (o, _) in mops if o is not None),
             '; '.join(out_lit(r) for (o, r) in mops)))
@@ -1572,6 +1626,16 @@ def run(ctx):
                        (lambda k: (lambda i: cdescr[k][i]))(kind), shard=6, defs=DEFS)
     ctx.corr_check('bulk_load_batches', IMPORTS, 'backend * list op * list out', bterms, checker,
                    lambda i: bdescr[i], shard=1, defs=DEFS)
+
+    ctx.corr_check('ttl_histories', IMPORTS + ' SqlTtl', 'Z * Z * list op * list out', tterms,
+                   "fun c => let '(off, ttl, ops, outs) := c in "
+                   "outs_eqb (snd (tsql_run mbtiles_params code_sites off ttl [] (map (fun o => (0, o)) ops))) outs",
+                   lambda i: tdescr[i], shard=1, defs=DEFS)
+    sites, flags = ttl_sites(ctx)
+    if sites is not None:
+        ctx.corr_check('ttl_sites', IMPORTS + ' SqlTtl', 'sites', [sites], "fun c => sites_eqb c code_sites",
+                       lambda i: {'localtime modifier in INSERT / single SELECT / bulk SELECT of MBTilesCache': flags,
+                                  'model': 'code_sites (SqlTtl.v)'}, shard=1, defs=DEFS)
 
     tilemanager_cases(ctx, pay)
 
